@@ -162,6 +162,13 @@ instance (cfg : Cfg) (a b : Block) : Decidable (BlockStep cfg a b) := by
   unfold BlockStep
   exact inferInstance
 
+/-- acceptance from height 0 does not depend on who verifies: what a verifier that checks every block accepts, every
+    verifier accepts (C05's "a peer that asks for the whole chain", for every peer at once) -/
+theorem C05_accepted_by_every_verifier (env : Env) (cfg : Cfg) (host : Ledger) (bs : List Block) (t : Int)
+    (h : AcceptedFrom env cfg host [] bs t) (host' : Ledger) (lastHost : List Block) :
+    AcceptedFrom env cfg host' lastHost bs t :=
+  fun now hnow => verify_full_any host' lastHost (h now hnow)
+
 /-- a decidable form of `Shape` -/
 def shapeB (cfg : Cfg) : List Block → Bool
   | a :: b :: rest => decide (BlockStep cfg a b) && shapeB cfg (b :: rest)
